@@ -18,11 +18,11 @@ func calCapacity(c, l int) (int, bool) {
 	if c <= 64 {
 		return c, false
 	}
-	if c > 2048 && (c/l >= 2) {
+	if c > 2048 && (c >= 2*l) {
 		factor := 0.625
 		return int(float32(c) * float32(factor)), true
 	}
-	if c <= 2048 && (c/l >= 4) {
+	if c <= 2048 && (c >= 4*l) {
 		return c / 2, true
 	}
 	return c, false
